@@ -805,8 +805,9 @@ def main():
     import translate_common
     import translate_slices
     import translate_mask
+    import translate_shift
     failed = {}
-    ERR = (Unsupported, translate_pyx.Unsupported, translate_walk.Unsupported, translate_eq.Unsupported, translate_indx.Unsupported, translate_strides.Unsupported, translate_missing.Unsupported, translate_driver.Unsupported, translate_diff.Unsupported, translate_validate.Unsupported, translate_common.Unsupported, translate_slices.Unsupported, translate_mask.Unsupported,
+    ERR = (Unsupported, translate_pyx.Unsupported, translate_walk.Unsupported, translate_eq.Unsupported, translate_indx.Unsupported, translate_strides.Unsupported, translate_missing.Unsupported, translate_driver.Unsupported, translate_diff.Unsupported, translate_validate.Unsupported, translate_common.Unsupported, translate_slices.Unsupported, translate_mask.Unsupported, translate_shift.Unsupported,
            StopIteration, SyntaxError, KeyError, IndexError, AttributeError)
 
     def piece(name, path, gen, stub_import=None):
@@ -838,6 +839,7 @@ def main():
     piece("choose_common", "CommonGen.lean", lambda: translate_common.generate(rd("iindexes.py")), "CatiiModel.IIndex")
     piece("slices1d", "SlicesGen.lean", lambda: translate_slices.generate(rd("iindexes.py")), "CatiiModel.IIndex")
     piece("common_rowids", "MaskGen.lean", lambda: translate_mask.generate(rd("iindexes.py")), "CatiiModel.IIndex")
+    piece("shift_to", "ShiftGen.lean", lambda: translate_shift.generate(rd("iindexes.py")), "CatiiModel.IIndex")
     return 3 if failed else 0
 
 
